@@ -2,6 +2,7 @@ import SignaloModel.Proofs.PeekProofs
 import SignaloModel.Proofs.SourcesTree
 import SignaloModel.Proofs.PeekRaw
 import SignaloModel.Proofs.SourcesRawProofs
+import SignaloModel.Proofs.SkipRaw
 /-!
 # C10 — Source adapters yield exactly what their iterator analogues yield
 
@@ -10,6 +11,7 @@ The property theorems for C10: `#check` prints each statement, `#print axioms` i
 -/
 open SignaloModel
 
+#check @Sources.pulls_skip
 #check @Sources.pulls_cache
 #check @Sources.pulls_take
 #check @Sources.pulls_chain
@@ -37,6 +39,7 @@ open SignaloModel
 #check @Sources.peek_idem
 #check @Sources.peek_pull_plain
 
+#print axioms Sources.pulls_skip
 #print axioms Sources.pulls_cache
 #print axioms Sources.pulls_take
 #print axioms Sources.pulls_chain
